@@ -79,7 +79,9 @@ def run_job(pid, job, acc):
 
         def post(ex):
             if not ex.halted() and ex.world.running:
-                for app in ("app", "app2"):
+                apps = sorted({st[2]["appid"] for st in hist if st[0] == "send" and isinstance(st[2], dict)
+                               and st[2].get("type") == "bind" and isinstance(st[2].get("appid"), str)})
+                for app in apps[:3]:
                     exhaust_choice(acc, ex.world, app, "random:%d" % s)
         run_hist(acc, hist, cfg, s, "random:%d" % s, nontrivial_keys=KEYS, keep_sample=(len(acc.samples) < 1),
                  quiesce=False, post=post)
